@@ -4,6 +4,7 @@ package jobs
 
 import (
 	"strconv"
+	"time"
 
 	"github.com/mimiro-io/datahub/internal/server"
 	"github.com/mimiro-io/datahub/internal/verifh"
@@ -170,4 +171,75 @@ func VerifC17Run(h *verifh.H) {
 	}
 	h.Assert((ws.lastError != nil) == (nfail > 0), "the outcome of the run carries the error iff an entity was rejected in any of its batches :: lastError="+le+" rejected="+strconv.Itoa(nfail)+" n1="+strconv.Itoa(n1)+" n2="+strconv.Itoa(n2)+" reported="+vJoinS(handler.reported))
 	h.Observe("reported", len(handler.reported))
+}
+
+// VerifC17Kill: a job with a log handler and a reRun handler (through the real
+// verify/toTriggeredJobs/Run/handleJobError path). The sink rejects the first
+// entity or not; the job is killed (Runner.killJob, as Scheduler.KillJob does)
+// while one of the later batches is being delivered, or not at all; pending
+// timers then fire. After a kill the job is not re-executed at all; after a
+// run that ended with a rejection it is re-executed at most maxRetries times;
+// after a clean run not at all.
+func VerifC17Kill(h *verifh.H) {
+	hub := server.VerifNewHub(h)
+	_, _ = hub.Dsm.CreateDataset("src", nil)
+	_, _ = hub.Dsm.CreateDataset("dst", nil)
+	runner := vRunner(hub, 1, 1)
+	sch := &Scheduler{Logger: hub.Env.Logger, Store: hub.Store, Runner: runner, DatasetManager: hub.Dsm}
+	maxRetries := 1 + h.Choice("maxRetries", 2)
+	trig := JobTrigger{TriggerType: TriggerTypeCron, JobType: JobTypeIncremental, Schedule: "@every 60s",
+		ErrorHandlers: []*ErrorHandler{{Type: "log"}, {Type: "reRun", MaxRetries: maxRetries, RetryDelay: 1}}}
+	cfg := &JobConfiguration{ID: "job-1", Title: "job one",
+		Source:   map[string]interface{}{"Type": "DatasetSource", "Name": "src"},
+		Sink:     map[string]interface{}{"Type": "DatasetSink", "Name": "dst"},
+		Triggers: []JobTrigger{trig}}
+	h.Assert(sch.verify(cfg) == nil, "definition accepted")
+	jobs, err := sch.toTriggeredJobs(cfg)
+	h.Assert(err == nil && len(jobs) == 1, "one job")
+	if err != nil || len(jobs) != 1 {
+		return
+	}
+	j := jobs[0]
+	ents := vEntities(3)
+	src := &vSource{batches: [][]*server.Entity{{ents[0]}, {ents[1]}, {ents[2]}}, failAt: -1}
+	sink := &vSink{failBatch: -1, failing: map[string]bool{}}
+	rejects := h.Choice("rejects", 2) == 1
+	if rejects {
+		sink.failing[ents[0].ID] = true
+	}
+	killAt := h.Choice("killAt", 3) // 0 never; 1, 2: while that (successful) sink call is being delivered
+	killed := false
+	sink.killAt = killAt
+	if h.Choice("event", 2) == 0 {
+		sink.kill = func() { killed = true; runner.killJob("job-1") }
+	} else {
+		// instead of a kill, another trigger of the same job arrives while it runs (a cron tick,
+		// an on-change event): it is refused and must not disturb the run in flight
+		sink.kill = func() { j.Run() }
+	}
+	j.pipeline.spec().source = src
+	j.pipeline.spec().sink = sink
+	j.pipeline.spec().batchSize = 1
+	runs := 1
+	j.Run()
+	res := &jobResult{}
+	h.Assert(hub.Store.GetObject(server.JobResultIndex, "job-1", res) == nil && res.ID == "job-1", "run result stored")
+	if !killed {
+		h.Assert((res.LastError != "") == rejects, "the recorded outcome carries the error iff an entity was rejected :: lastError="+res.LastError+" rejects="+strconv.FormatBool(rejects))
+	}
+	for k := 0; k < 4; k++ {
+		if !h.FireTimer("rerun", 1500*time.Millisecond) {
+			break
+		}
+		runs++
+	}
+	h.Assert(len(runner.raffle.runningJobs) == 0, "run slot released")
+	if killed {
+		h.Assert(runs == 1, "a killed run is not re-executed :: runs="+strconv.Itoa(runs)+" rejects="+strconv.FormatBool(rejects))
+	} else if rejects {
+		h.Assert(runs-1 <= maxRetries, "a failed run is re-executed at most maxRetries times")
+	} else {
+		h.Assert(runs == 1, "a clean run is not re-executed")
+	}
+	h.Observe("runs", runs)
 }
